@@ -4,6 +4,11 @@ from .. import ir
 
 
 class CJumpPass(InstructionPass):
+    def on_function(self, function):
+        super().on_function(function)
+        # Folding a jump can leave blocks without a path from the entry:
+        function.delete_unreachable()
+
     def on_instruction(self, instruction):
         if (
             isinstance(instruction, ir.CJump)
@@ -21,10 +26,15 @@ class CJumpPass(InstructionPass):
                 "!=": operator.ne,
             }
             if mp[instruction.cond](a, b):
-                label = instruction.lab_yes
+                label, other = instruction.lab_yes, instruction.lab_no
             else:
-                label = instruction.lab_no
+                label, other = instruction.lab_no, instruction.lab_yes
             block = instruction.block
             block.remove_instruction(instruction)
             block.add_instruction(ir.Jump(label))
             instruction.delete()
+
+            # The branch not taken lost a predecessor:
+            if other is not label:
+                for phi in other.phis:
+                    phi.del_incoming(block)
